@@ -337,6 +337,7 @@ def main():
             for fn in r['functions']:
                 fns.append({'unit': r['unit'], 'fn': fn['fn'], 'src': '%s:%d-%d' % (fn['file'], fn['src_lines'][0], fn['src_lines'][1]),
                             'arm': fn['arm'], 'rewrites': fn['rules']})
+            named_obs = {'%s::%s::%s' % (r['unit'], c2['fn'], c2['clause']) for c2 in r['named_clauses']}
             for c in r['named_clauses']:
                 ctags = re.findall(r'\bc\d\d\b', c['clause'])
                 if clause_filter and ctags and not any(p in c['clause'] for p in clause_filter):
@@ -347,7 +348,9 @@ def main():
                 if ob in known_for:
                     continue
                 obligations += 1
-                if ob not in failing and not any(x.endswith('::' + c['clause']) for x in failing):
+                # (fallback: a failure reported under another label of the same clause - but never the same-named clause of
+                # another function, which is an obligation of its own)
+                if ob not in failing and not any(x.endswith('::' + c['clause']) and x not in named_obs for x in failing):
                     discharged += 1
                 if len(samples) < 12:
                     samples.append({'obligation': ob, 'clause': c['text']})
